@@ -6,6 +6,7 @@ import (
 	"fmt"
 	"math/big"
 
+	"github.com/bytemare/secp256k1"
 	"github.com/bytemare/secp256k1/zz_verif/gen"
 	"github.com/bytemare/secp256k1/zz_verif/mon"
 	"github.com/bytemare/secp256k1/zz_verif/oracle"
@@ -201,9 +202,19 @@ func c14RunConc(c *mon.Ctx, seed uint64) {
 
 	var jobs []func() string
 
+	var (
+		v *big.Int
+		s *secp256k1.Scalar
+	)
+
 	for i := 0; i < concJobs; i++ {
-		v := gen.Draw(r, oracle.N).X
-		s := mon.Scal(v)
+		// every second job reads the SAME scalar object as the job before it (read-only methods only)
+		if i%2 == 0 {
+			v = gen.Draw(r, oracle.N).X
+			s = mon.Scal(v)
+		}
+
+		v, s := v, s
 		jobs = append(jobs, func() string {
 			b := s.Bits()
 			for i := 0; i < 256; i++ {
